@@ -25,7 +25,7 @@ def impl_obs(G):
         cls = ln.__class__
         colls = list(cls.DEPENDENT_LINES) + list(cls.OTHER_REFERENCES)
         name = ln.name if hasattr(ln, 'name') else None
-        if rt in WITH_NAME and isinstance(name, str) and name != '*':
+        if rt in WITH_NAME and isinstance(name, str) and (name != '*' or rt == 'S'):
             for c in ALL_COLLS:
                 if c in colls:
                     rows.append('|'.join(['B', t, c, ';'.join(sorted(line_text(m) for m in getattr(ln, c)))]))
@@ -112,14 +112,21 @@ def clean_doc(rng, version):
         lines = [l for l in lines if 'ID:Z:' not in l]
     else:
         lines, info = gen.gen_gfa2(rng, headers=False, tags=rng.random() < 0.5)
-        gaps = set(x['id'] for x in info['gaps'])
-        keep = []
-        for l in lines:
-            f = l.split('\t')
-            if f[0] == 'U' and set(f[2].split(' ')) & gaps:
-                continue
-            keep.append(l)
-        lines = keep
+        gone = set(x['id'] for x in info['gaps'])
+        while True:
+            keep = []
+            for l in lines:
+                f = l.split('\t')
+                if f[0] == 'U' and set(f[2].split(' ')) & gone:
+                    gone.add(f[1])          # groups that list a dropped group are dropped as well
+                    continue
+                if f[0] == 'O' and set(x[:-1] for x in f[2].split(' ')) & gone:
+                    gone.add(f[1])
+                    continue
+                keep.append(l)
+            if len(keep) == len(lines):
+                break
+            lines = keep
     return lines, info
 
 
